@@ -671,18 +671,43 @@ func (cfg *Config) wordFields(wps []syntax.WordPart) ([][]fieldPart, error) {
 		fields = append(fields, curField)
 		curField = nil
 	}
+	// wsEnded records that the previous field was ended by IFS whitespace,
+	// which an IFS non-whitespace character right after it still belongs to.
+	wsEnded := false
 	splitAdd := func(val string) {
+		if len(curField) > 0 {
+			wsEnded = false
+		}
 		fieldStart := -1
+		endPart := func(i int) {
+			if fieldStart >= 0 { // ending a field
+				curField = append(curField, fieldPart{val: val[fieldStart:i]})
+				fieldStart = -1
+			}
+		}
 		for i, r := range val {
-			if cfg.ifsRune(r) {
-				if fieldStart >= 0 { // ending a field
-					curField = append(curField, fieldPart{val: val[fieldStart:i]})
-					fieldStart = -1
-				}
-				flush()
-			} else {
+			switch {
+			case !cfg.ifsRune(r):
 				if fieldStart < 0 { // starting a new field
 					fieldStart = i
+				}
+				wsEnded = false
+			case cfg.ifsWhitespace(r):
+				// Any amount of IFS whitespace delimits non-empty fields.
+				endPart(i)
+				if len(curField) > 0 {
+					flush()
+					wsEnded = true
+				}
+			default:
+				// Each other IFS character delimits a field on its own,
+				// even an empty one, together with adjacent IFS whitespace.
+				endPart(i)
+				if wsEnded {
+					wsEnded = false
+				} else {
+					fields = append(fields, curField)
+					curField = nil
 				}
 			}
 		}
@@ -762,7 +787,13 @@ func (cfg *Config) wordFields(wps []syntax.WordPart) ([][]fieldPart, error) {
 				// fields when IFS is empty.
 				for j, elem := range elems {
 					if j > 0 {
-						flush()
+						if r, _ := utf8.DecodeRuneInString(cfg.ifs); cfg.ifs != "" && !cfg.ifsWhitespace(r) {
+							// The elements are separated like by the first
+							// IFS character, which may delimit empty fields.
+							splitAdd(string(r))
+						} else {
+							flush()
+						}
 					}
 					splitAdd(elem)
 				}
